@@ -808,11 +808,42 @@ def oracle_txq(case, li):
     return None
 
 
+def lazy_orbits(count, rng):
+    """two orbits ALIVE AT ONCE on one thread (`orbit()` returns a lazy iterator): consumed alternately (`orbitz`) and nested
+    (`orbitn`: for every dart of one orbit, the orbit of that dart under another policy), on 2-maps and 3-maps; each orbit must be
+    what it is when computed alone (the model computes them one by one)"""
+    cases = []
+    maps2 = {n: list(gens.wf_maps2(n, with_unused=False)) for n in (2, 3, 4)}
+    fam3 = list(gens.faces3_maps(2, 3))
+    for c in range(count):
+        if c % 3 != 2:
+            n = rng.choice((2, 3, 4, 4))
+            b0, b1, b2, u = rng.choice(maps2[n])
+            lines = [gens.load_line(2, n, 0, [b0, b1, b2], u)]
+            pols = ["v", "e", "f", "vl", "fl", "c12", "c01"]
+        else:
+            n, rows, _ = rng.choice(fam3)
+            lines = [gens.load_line(3, n, 0, rows, [0] * (n + 1))]
+            for _ in range(rng.choice([0, 1, 2])):
+                lines.append(gens.random_op3(rng, list(range(1, n + 1)), alloc=False, weights=[4, 0, 0, 0], force_p=1.0))
+            pols = ["v", "e", "f", "vol", "vl", "fl", "c3", "c23"]
+        darts = list(range(1, n + 1))
+        for _ in range(rng.randint(2, 5)):
+            if rng.random() < 0.5:
+                lines.append(f"orbitz {rng.choice(pols)} {rng.choice(darts)} {rng.choice(pols)} {rng.choice(darts)}")
+            else:
+                lines.append(f"orbitn {rng.choice(pols)} {rng.choice(darts)} {rng.choice(pols)}")
+        cases.append(Case(f"lz{c}", lines, oracle=None, meta={"sig": "lazy-orbits"}))
+    return cases
+
+
 def run(tier, seed):
     rng = random.Random(seed)
     for k in COUNT:
         COUNT[k] = 0
     parts = []
+    parts.append(("two orbits alive at once (zipped / nested lazy iterators)",
+                  hv.campaign(lazy_orbits(3000 if tier == "quick" else 40000, rng), None)))
     parts.append(("transactional queries after edits in the same transaction (2-D and 3-D)",
                   hv.campaign(tx_queries(4000 if tier == "quick" else 60000, rng), oracle_txq)))
     if tier == "quick":
